@@ -90,6 +90,22 @@ theorem full_and_interface_shape :
     between (set "Truncated") (iff "maxErrors,len,Fields,maxErrors") (call "Sort") coerceToValidationErrors_events = true ∧
     ValidatePartial_events = [call "append", call "WithPresence", call "WithPartial", call "Validate", kw "return"] := by decide
 
+/-- `Validator.Validate` (model `validateTop`): the options are folded first; the custom validator runs before
+    anything else and its error returns through `coerceToValidationErrors`; then `WithRunAll`; then the strategy —
+    determined only under `StrategyAuto` — through `validateByStrategy`, which dispatches interface / tags / schema -/
+theorem validate_top_order :
+    firstBefore (call "applyOptions") (iff "customValidator") Validate_events = true ∧
+    firstBefore (call "customValidator") (call "coerceToValidationErrors") Validate_events = true ∧
+    firstBefore (call "coerceToValidationErrors") (iff "runAll") Validate_events = true ∧
+    firstBefore (iff "runAll") (call "validateAll") Validate_events = true ∧
+    firstBefore (call "validateAll") (iff "StrategyAuto") Validate_events = true ∧
+    between (call "determineStrategy") (iff "StrategyAuto") (call "validateByStrategy") Validate_events = true ∧
+    (validateByStrategy_events.filter (·.1 == "case")).map (·.2) =
+      ["StrategyInterface", "StrategyTags", "StrategyJSONSchema", ""] ∧
+    between (call "validateWithInterface") (("case", "StrategyInterface")) (("case", "StrategyTags")) validateByStrategy_events = true ∧
+    between (call "validateWithTags") (("case", "StrategyTags")) (("case", "StrategyJSONSchema")) validateByStrategy_events = true := by
+  decide
+
 /-- the redaction walk `coversValue` (model `coversValue`): the redactor is asked about the path first, then the
     depth guard, then pointers and interfaces are looked through (a nil one reveals nothing); a struct is walked
     through the cached field map with the promoted-struct test, a slice or array by index (`Itoa`), a map by key
